@@ -326,14 +326,41 @@ impl Acc {
     }
 }
 
-/// The left-to-right decision procedure of DESIGN.md Appendix A.
+/// Everything the recogniser found out about a string.
+#[derive(Debug, Clone, PartialEq, Eq)]
+pub struct Analysis {
+    /// Defect classes of C05's list that are present.
+    pub rejects: Vec<&'static str>,
+    /// Something the statements leave open is present as well.
+    pub unspec: bool,
+    /// Components as far as they could be determined (complete iff no reject and no unspec).
+    pub comps: Comps,
+}
+
+impl Analysis {
+    pub fn class(&self) -> Class {
+        if !self.rejects.is_empty() {
+            Class::MustReject(self.rejects.clone())
+        } else if self.unspec {
+            Class::Unspecified
+        } else {
+            Class::MustAccept(self.comps.clone())
+        }
+    }
+}
+
 pub fn classify(s: &str) -> Class {
+    analyse(s).class()
+}
+
+/// The left-to-right decision procedure of DESIGN.md Appendix A.
+pub fn analyse(s: &str) -> Analysis {
     if !s.starts_with("pkg:") {
         let b = s.as_bytes();
         if b.len() >= 4 && b[..4].eq_ignore_ascii_case(b"pkg:") {
-            return Class::Unspecified;
+            return Analysis { rejects: vec![], unspec: true, comps: Comps::default() };
         }
-        return Class::MustReject(vec!["scheme"]);
+        return Analysis { rejects: vec!["scheme"], unspec: false, comps: Comps::default() };
     }
     let mut acc = Acc { rejects: vec![], unspec: false };
     let r = s[4..].trim_start_matches('/');
@@ -345,60 +372,61 @@ pub fn classify(s: &str) -> Class {
         Some(i) => (&r[..i], Some(&r[i + 1..])),
         None => (r, None),
     };
-    if path.is_empty() {
-        return Class::MustReject(vec!["no-type"]);
-    }
     let mut comps = Comps::default();
-    let (ty, after) = match path.find('/') {
-        Some(i) => (&path[..i], Some(&path[i + 1..])),
-        None => (path, None),
-    };
-    if !type_chars_ok(ty) {
-        acc.rej("type-invalid");
-    } else if !ty.as_bytes()[0].is_ascii_alphabetic() {
-        acc.unspec = true;
-    }
-    comps.ty = ascii_lower(ty);
-    match after {
-        None => acc.rej("no-name"),
-        Some(after) => {
-            let (nn, ver) = match after.rfind('@') {
-                Some(i) => (&after[..i], Some(&after[i + 1..])),
-                None => (after, None),
-            };
-            if let Some(v) = ver {
-                if v.is_empty() {
-                    acc.unspec = true;
-                } else if let Some(d) = acc.d(v) {
-                    if d.is_empty() {
+    if path.is_empty() {
+        acc.rej("no-type");
+    } else {
+        let (ty, after) = match path.find('/') {
+            Some(i) => (&path[..i], Some(&path[i + 1..])),
+            None => (path, None),
+        };
+        if !type_chars_ok(ty) {
+            acc.rej("type-invalid");
+        } else if !ty.as_bytes()[0].is_ascii_alphabetic() {
+            acc.unspec = true;
+        }
+        comps.ty = ascii_lower(ty);
+        match after {
+            None => acc.rej("no-name"),
+            Some(after) => {
+                let (nn, ver) = match after.rfind('@') {
+                    Some(i) => (&after[..i], Some(&after[i + 1..])),
+                    None => (after, None),
+                };
+                if let Some(v) = ver {
+                    if v.is_empty() {
                         acc.unspec = true;
-                    }
-                    comps.ver = Some(d);
-                }
-            }
-            let (ns, name) = match nn.rfind('/') {
-                Some(i) => (Some(&nn[..i]), &nn[i + 1..]),
-                None => (None, nn),
-            };
-            if name.is_empty() {
-                acc.rej("no-name");
-            } else if let Some(d) = acc.d(name) {
-                comps.name = d;
-            }
-            if let Some(ns) = ns {
-                for seg in ns.split('/') {
-                    if seg.is_empty() {
-                        continue;
-                    }
-                    if let Some(d) = acc.d(seg) {
-                        if d.contains('/') {
-                            acc.rej("hidden-slash");
+                    } else if let Some(d) = acc.d(v) {
+                        if d.is_empty() {
+                            acc.unspec = true;
                         }
-                        comps.ns.push(d);
+                        comps.ver = Some(d);
                     }
                 }
-            }
-        },
+                let (ns, name) = match nn.rfind('/') {
+                    Some(i) => (Some(&nn[..i]), &nn[i + 1..]),
+                    None => (None, nn),
+                };
+                if name.is_empty() {
+                    acc.rej("no-name");
+                } else if let Some(d) = acc.d(name) {
+                    comps.name = d;
+                }
+                if let Some(ns) = ns {
+                    for seg in ns.split('/') {
+                        if seg.is_empty() {
+                            continue;
+                        }
+                        if let Some(d) = acc.d(seg) {
+                            if d.contains('/') {
+                                acc.rej("hidden-slash");
+                            }
+                            comps.ns.push(d);
+                        }
+                    }
+                }
+            },
+        }
     }
     if let Some(q) = q {
         if q.is_empty() {
@@ -472,13 +500,7 @@ pub fn classify(s: &str) -> Class {
             }
         }
     }
-    if !acc.rejects.is_empty() {
-        Class::MustReject(acc.rejects)
-    } else if acc.unspec {
-        Class::Unspecified
-    } else {
-        Class::MustAccept(comps)
-    }
+    Analysis { rejects: acc.rejects, unspec: acc.unspec, comps }
 }
 
 /// What the typed PURL must do with a generic MustAccept result.
